@@ -158,6 +158,7 @@ func TestC14Backup(t *testing.T) {
 	ev.SetRule(c14Rule)
 	checkPropN(t, "C14", 30, func(t *rapid.T) {
 		cfg := genC03Config(t)
+		cfg.SegVersion = rapid.SampledFrom([]int{0, 0, 0, 11, 13, 15, 16}).Draw(t, "segv") // the backup must be readable with the source's segment format
 		cfg.KeepSnapshots = 1
 		nw := rapid.IntRange(1, 3).Draw(t, "nwriters")
 		var writers []*seqWriter
